@@ -94,7 +94,13 @@ def prepare(cfg):
                        for p in shape)
         STATE['shape'] = shape
         try:
-            if cfg.get('shared_cache'):
+            if cfg.get('shared_cache') == 'file':
+                # one source file served as markup first, then as text, both cooked through one module cache
+                from chameleon import PageTemplateFile, PageTextTemplateFile
+                from vlib.cachepair import cook_files_through_one_cache
+                STATE['tpl'] = cook_files_through_one_cache(text, [(PageTemplateFile, {}), (PageTextTemplateFile, {})])[1]
+                STATE['bytes'] = True
+            elif cfg.get('shared_cache'):
                 # the same source compiled as a markup template first, both through one on-disk module cache
                 from chameleon import PageTemplate
                 from vlib.cachepair import compile_through_one_cache
@@ -156,6 +162,8 @@ def render(c0: int, c1: int, c2: int, c3: int) -> bool:
     if STATE.get('tpl') is None:
         return _res(False)
     got = STATE['tpl'].render(v=val)
+    if STATE.get('bytes'):
+        got = got.decode('utf-8', 'surrogatepass')      # a text template file renders to bytes
     want = ''
     for p in STATE['shape']:
         if isinstance(p, list):
